@@ -17,6 +17,11 @@ property text.  The core matrix is enumerated with plain loops (exhaustive in th
 tier); Hypothesis generates the surrounding database shape, MTUs, value kinds and
 secrets, and additional random programs of cells (including two requests in flight on the
 two bearers at the same time).
+
+Failure signatures: <clause>/<refusal class>/<ATT operation>, clauses disclosed / changed /
+unanswered / bad_answer / over_blocked.  The triggers of known finding F11a (nothing looks at
+the READABLE / WRITEABLE bits; Bumble's profiles and tests depend on that) are excluded by
+construction and counted, see KNOWN_TRIGGERS.
 """
 
 from __future__ import annotations
@@ -32,8 +37,9 @@ from vlib.runner import HarnessError
 PROPERTY = 'C11'
 LEVEL = 'exploration'
 RULE = (
-    'matrix (plain loops, exhaustive in thorough, a stratified third [one of the three security '
-    'states per (kind, mask, path, bearer), rotated by the seed] in quick): target kind {characteristic '
+    'matrix (plain loops; exhaustive in thorough, where it is run three times in different worlds and orders; '
+    'a stratified third [one of the three security states per (kind, mask, path, bearer), rotated by the '
+    'seed] in quick): target kind {characteristic '
     'value, descriptor, group (service-typed attribute carrying a mask)} x all 256 permission masks x '
     'security {plain, encrypted, encrypted+authenticated} x access path {read, read blob at offset 0 '
     'and 7 on a value longer than MTU-1, read by type with the target first / second after a readable '
@@ -953,7 +959,7 @@ def run(ctx) -> None:
     vloop.selftest()
     cells, total = matrix_cells(ctx)
     per_world = ctx.pick(32, 12)
-    rounds = ctx.pick(1, 4)  # thorough: the whole matrix again in other worlds, in another order
+    rounds = ctx.pick(1, 3)  # thorough: the whole matrix again in other worlds, in another order
     leftover = 0
     for r in range(rounds):
         if r:
@@ -977,7 +983,7 @@ def run(ctx) -> None:
         ctx.extra['exhaustive'] = True
     ctx.extra['bearers'] = 'ATT fixed channel (raw peer) and EATT (enhanced credit based channel from a second Bumble device)'
 
-    ctx.hyp('programs', lambda d: run_program(ctx, d[0], d[1]), program_strategy(), max_examples=ctx.n(500, 96000))
+    ctx.hyp('programs', lambda d: run_program(ctx, d[0], d[1]), program_strategy(), max_examples=ctx.n(500, 48000))
 
     for path in ALL_PATHS:
         ctx.floor(f'path:{path}', 20)
